@@ -287,19 +287,7 @@ func init() {
 		}
 		deep := hs(nest("[", "]", 10001, "1"))
 		mid := hs(nest(`{"a":`, "}", 300, "[[[]]]"))
-		// one function leaves the shared stack long (the handler machines have no depth limit for
-		// declined values), then another function runs at its own depth limit with that buffer
-		veryDeepArr := hs(nest("[", "]", 20000, "1"))
-		veryDeepObj := hs([]byte(`{"k":` + string(nest("[", "]", 15000, "1")) + `}`))
-		limits := []string{hs(nest("[", "]", 10000, "1")), hs(nest("[", "]", 10001, "1")), hs(nest(`{"a":`, "}", 10001, "1")), hs(nest(`[{"a":`, "}]", 5001, "1"))}
-		for _, first := range []string{"harr:" + veryDeepArr + ":0", "hobj:" + veryDeepObj + ":0", "harr:" + veryDeepArr + ":0;0", "skip:" + limits[0]} {
-			for _, lim := range limits {
-				for _, op := range []string{"skip", "skipfast", "valid"} {
-					e.emit("hist nil %s %s:%s %s:%s", first, op, lim, op, hs([]byte("[[1],{\"a\":[2]}]")))
-				}
-				e.emit("hist - %s harr:%s:0 hobj:%s:0 harr:%s:x", first, lim, hs([]byte(`{"a":[1],"b":{"k":2},"c":3}`)), hs([]byte(`[[1],{"k":[2]},3]`)))
-			}
-		}
+		usedBufferHistories(e, []string{"skip", "skipfast", "valid"}, true)
 		for _, len1 := range []string{"[1 2]", "[tru]", `{"a" 1}`, "[1,]", `{"a":[1 2],"b":}x`, "[[1 2],{3}]"} {
 			for _, st := range []string{"nil", "-", "7,7,7"} {
 				e.emit("hist %s skipfast:%s skip:%s skipfast:%s valid:%s", st, hs([]byte(len1)), hs([]byte(len1)), hs([]byte(len1)), hs([]byte(len1)))
@@ -367,5 +355,25 @@ func strHistories(e *emitter, r *rng, thorough bool) {
 			ops = append(ops, r.pick([]string{"rs", "dec", "dec"})+":"+hs([]byte(s)))
 		}
 		e.emit("strhist %d %s", r.pickInt([]int{-1, 0, 0, 4, 8, 64}), strings.Join(ops, " "))
+	}
+}
+
+// usedBufferHistories: one function leaves the shared stack long (the handler machines have no depth
+// limit for declined values; SkipValue at its limit leaves 10000 entries), then the given functions run
+// at their own depth limit, and on a small document, with that Buffer.  Used by the buffer property
+// (C14) and by every property whose statement says "whatever Buffer is supplied" (C01, C02, C11, C07).
+func usedBufferHistories(e *emitter, ops []string, handlers bool) {
+	veryDeepArr := hs(nest("[", "]", 20000, "1"))
+	veryDeepObj := hs([]byte(`{"k":` + string(nest("[", "]", 15000, "1")) + `}`))
+	limits := []string{hs(nest("[", "]", 10000, "1")), hs(nest("[", "]", 10001, "1")), hs(nest(`{"a":`, "}", 10001, "1")), hs(nest(`[{"a":`, "}]", 5001, "1"))}
+	for _, first := range []string{"harr:" + veryDeepArr + ":0", "hobj:" + veryDeepObj + ":0", "harr:" + veryDeepArr + ":0;0", "skip:" + limits[0]} {
+		for _, lim := range limits {
+			for _, op := range ops {
+				e.emit("hist nil %s %s:%s %s:%s", first, op, lim, op, hs([]byte("[[1],{\"a\":[2]}]")))
+			}
+			if handlers {
+				e.emit("hist - %s harr:%s:0 hobj:%s:0 harr:%s:x", first, lim, hs([]byte(`{"a":[1],"b":{"k":2},"c":3}`)), hs([]byte(`[[1],{"k":[2]},3]`)))
+			}
+		}
 	}
 }
